@@ -8,7 +8,7 @@ from sx.shims import STUBS  # noqa
 from .layout import LayoutShape
 
 ID = 'C02'
-BUDGET_S = {'quick': 170, 'thorough': 2400}
+BUDGET_S = {'quick': 170, 'thorough': 3600}
 SHAPE_WALL_S = {'quick': 80, 'thorough': 600}
 FAMILY = ('PIPE: programs of <= 12 statements over labels, constants, instructions of 1/1(4-bit)/2/3 bytes, '
           '.byte/.2byte/.4byte, .fill/.zero/.zerountil, .org, .align, .memzone, #mute regions, #if 0/1 blocks, '
